@@ -679,6 +679,204 @@ theorem xDof_hinge_slide_q1 (j : Tf ℝ) (jd : Motion ℝ) (pidx : Int) (a e : V
     List.map_cons, List.map_nil, v3Any_zero, Bool.false_eq_true, if_false]
   rfl
 
+/-! ## ℝ: slides followed by one hinge (`theta` and `phi` of `axis_angle_ang`) -/
+
+theorem cross_unit_normSq (a b : V3 ℝ) (ha : V3.dot a a = 1) (hb : V3.dot b b = 1)
+    (hab : V3.dot a b = 0) : V3.dot (V3.cross a b) (V3.cross a b) = 1 := by
+  rw [cross_normSq, ha, hb, hab]; ring
+
+theorem cross_b_cross (a b : V3 ℝ) (hb : V3.dot b b = 1) (hab : V3.dot a b = 0) :
+    V3.cross b (V3.cross a b) = a := by
+  rw [cross_cross_right, hb, hab]; cases a; cases b; simp [V3.smul]
+
+theorem cross_cross_a (a b : V3 ℝ) (ha : V3.dot a a = 1) (hab : V3.dot a b = 0) :
+    V3.cross (V3.cross a b) a = b := by
+  rw [cross_cross_left, ha, hab]; cases a; cases b; simp [V3.smul]
+
+/-- frame `(b, a×b, a)` turned by `q` about its third axis `a`: `phi = q`, third child axis `a` -/
+theorem hinge_phi (a b p : V3 ℝ) (q : ℝ) (ha : V3.dot a a = 1) (hb : V3.dot b b = 1)
+    (hab : V3.dot a b = 0) (h1 : -Real.pi < q) (h2 : q ≤ Real.pi) :
+    (axisAngleAng ⟨p, quatRotAxis a q⟩ ⟨b, V3.cross a b, a⟩ 1).2.phi = q
+      ∧ (axisAngleAng ⟨p, quatRotAxis a q⟩ ⟨b, V3.cross a b, a⟩ 1).1.r2 = a := by
+  have hcc := cross_unit_normSq a b ha hb hab
+  constructor
+  · simp only [axisAngleAng]
+    rw [rotate_axis a q ha, normalize3_unit _ hcc, rotate_perp_cross a b q ha hab]
+    simp only [signedAngle]
+    have hy : V3.dot (V3.cross ⟨Real.cos q * (V3.cross a b).x - Real.sin q * b.x,
+        Real.cos q * (V3.cross a b).y - Real.sin q * b.y,
+        Real.cos q * (V3.cross a b).z - Real.sin q * b.z⟩ (V3.cross a b))
+        ⟨-a.x * 1, -a.y * 1, -a.z * 1⟩ = Real.sin q := by
+      simp only [V3.dot] at ha hb hab
+      simp only [V3.dot, V3.cross]
+      linear_combination (Real.sin q * (b.x * b.x + b.y * b.y + b.z * b.z)) * ha + Real.sin q * hb
+        - (Real.sin q * (a.x * b.x + a.y * b.y + a.z * b.z)) * hab
+    have hx : V3.dot ⟨Real.cos q * (V3.cross a b).x - Real.sin q * b.x,
+        Real.cos q * (V3.cross a b).y - Real.sin q * b.y,
+        Real.cos q * (V3.cross a b).z - Real.sin q * b.z⟩ (V3.cross a b) = Real.cos q := by
+      have hbc : V3.dot b (V3.cross a b) = 0 := dot_cross_self_right a b
+      simp only [V3.dot] at hcc hbc ⊢
+      linear_combination Real.cos q * hcc - Real.sin q * hbc
+    rw [hy, hx]
+    exact atan2_sin_cos q h1 h2
+  · simp only [axisAngleAng]
+    rw [rotate_axis a q ha]; cases a; simp
+
+theorem normalize3_pos_scale (u : V3 ℝ) (k : ℝ) (hu : V3.dot u u = 1) (hk : 1e-7 < k) :
+    normalize3 ⟨k * u.x, k * u.y, k * u.z⟩ = u := by
+  have hkp : 0 < k := lt_trans (by norm_num) hk
+  have hd : V3.dot (⟨k * u.x, k * u.y, k * u.z⟩ : V3 ℝ) ⟨k * u.x, k * u.y, k * u.z⟩ = k * k := by
+    simp only [V3.dot] at hu ⊢; linear_combination (k * k) * hu
+  rw [normalize3_eq _ (by rw [hd]; nlinarith), hd, Real.sqrt_mul_self (le_of_lt hkp)]
+  cases u; simp only; congr 1 <;> field_simp
+
+theorem arccos_cos_abs (q : ℝ) (h : |q| ≤ Real.pi) : Real.arccos (Real.cos q) = |q| := by
+  rw [← Real.cos_abs q]; exact Real.arccos_cos (abs_nonneg q) h
+
+theorem abs_mul_signv_sin (q : ℝ) (h : |q| < Real.pi) : |q| * signv (Real.sin q) = q := by
+  rcases lt_trichotomy q 0 with hq | hq | hq
+  · have hs : Real.sin q < 0 := by
+      have : -Real.pi < q := by have := abs_lt.mp h; linarith
+      exact Real.sin_neg_of_neg_of_neg_pi_lt hq this
+    simp only [signv, hs, if_true, abs_of_neg hq]; ring
+  · subst hq; simp [signv]
+  · have hs : 0 < Real.sin q := Real.sin_pos_of_pos_of_lt_pi hq (by have := abs_lt.mp h; linarith)
+    have hn : ¬ Real.sin q < 0 := not_lt.mpr (le_of_lt hs)
+    simp only [signv, hn, hs, if_false, if_true, abs_of_pos hq]; ring
+
+theorem cos_ge_of_abs_le (q : ℝ) (hq : |q| ≤ 6 / 5) : 7 / 25 ≤ Real.cos q := by
+  have h := Real.one_sub_sq_div_two_le_cos (x := q)
+  have h2 := sq_le_of_abs_le hq
+  nlinarith
+
+/-- frame `(a×b, a, b)` turned by `q` (`|q| ≤ 1.2`) about its second axis `a`: `theta = q`, second
+child axis `a` -/
+theorem hinge_theta (a b p : V3 ℝ) (q : ℝ) (ha : V3.dot a a = 1) (hb : V3.dot b b = 1)
+    (hab : V3.dot a b = 0) (hq : |q| ≤ 6 / 5) :
+    (axisAngleAng ⟨p, quatRotAxis a q⟩ ⟨V3.cross a b, a, b⟩ 1).2.theta = q
+      ∧ (axisAngleAng ⟨p, quatRotAxis a q⟩ ⟨V3.cross a b, a, b⟩ 1).1.r1 = a := by
+  have hcc := cross_unit_normSq a b ha hb hab
+  have hac : V3.dot a (V3.cross a b) = 0 := dot_cross_self_left a b
+  have hbc : V3.dot b (V3.cross a b) = 0 := dot_cross_self_right a b
+  have hcos := cos_ge_of_abs_le q hq
+  have hpi : |q| < Real.pi := lt_of_le_of_lt hq (by linarith [Real.two_le_pi])
+  constructor
+  · simp only [axisAngleAng]
+    rw [rotate_axis a q ha, rotate_perp_cross a b q ha hab, rotate_perp a b q ha hab]
+    -- the projected first axis is `cos q` times the turned first axis
+    set c0 : V3 ℝ := ⟨Real.cos q * (V3.cross a b).x - Real.sin q * b.x,
+        Real.cos q * (V3.cross a b).y - Real.sin q * b.y,
+        Real.cos q * (V3.cross a b).z - Real.sin q * b.z⟩ with hc0
+    have hd0 : V3.dot (V3.cross a b) c0 = Real.cos q := by
+      simp only [V3.dot] at hcc hbc ⊢
+      simp only [hc0]
+      linear_combination Real.cos q * hcc - Real.sin q * hbc
+    have hd1 : V3.dot (V3.cross a b) a = 0 := by rw [dot_comm]; exact hac
+    have hc0u : V3.dot c0 c0 = 1 := by
+      have hcs := Real.sin_sq_add_cos_sq q
+      simp only [V3.dot] at hcc hbc hb ⊢
+      simp only [hc0]
+      linear_combination hcs + (Real.cos q ^ 2) * hcc + (Real.sin q ^ 2) * hb
+        - (2 * Real.sin q * Real.cos q) * hbc
+    rw [hd0, hd1]
+    have hraw : (⟨Real.cos q * c0.x + 0 * a.x, Real.cos q * c0.y + 0 * a.y,
+        Real.cos q * c0.z + 0 * a.z⟩ : V3 ℝ) = ⟨Real.cos q * c0.x, Real.cos q * c0.y, Real.cos q * c0.z⟩ := by
+      congr 1 <;> ring
+    rw [hraw, normalize3_pos_scale c0 _ hc0u (by norm_num; linarith)]
+    rw [dot_comm c0, hd0]
+    have hs : V3.dot (V3.cross a b) ⟨Real.cos q * b.x + Real.sin q * (V3.cross a b).x,
+        Real.cos q * b.y + Real.sin q * (V3.cross a b).y,
+        Real.cos q * b.z + Real.sin q * (V3.cross a b).z⟩ = Real.sin q := by
+      simp only [V3.dot] at hcc hbc ⊢
+      linear_combination Real.sin q * hcc + Real.cos q * hbc
+    rw [hs]
+    have hclip : clip (Real.cos q) (-1) 1 = Real.cos q := by
+      rw [clip_eq, max_eq_left (Real.neg_one_le_cos q), min_eq_left (Real.cos_le_one q)]
+    rw [hclip]
+    show Real.arccos (Real.cos q) * signv (Real.sin q) = q
+    rw [arccos_cos_abs q (le_of_lt hpi)]
+    exact abs_mul_signv_sin q hpi
+  · simp only [axisAngleAng]
+    exact rotate_axis a q ha
+
+/-- `x_dof` on a (slide along `e`, hinge about unit `a`) stack whose joint transform is turned by
+`q` about `a` -/
+theorem xDof_slide_hinge (a e p : V3 ℝ) (q : ℝ) (jd : Motion ℝ) (pidx : Int)
+    (ha : V3.dot a a = 1) (he : V3.dot e e ≠ 0) (hq : |q| ≤ 6 / 5) :
+    xDof ⟨p, quatRotAxis a q⟩ jd pidx [⟨⟨0, 0, 0⟩, e⟩, ⟨a, ⟨0, 0, 0⟩⟩]
+      = some ([V3.dot e p, q], [V3.dot e jd.vel, V3.dot a (invRotate jd.ang
+          (if pidx == -1 then quatRotAxis a q else ⟨1, 0, 0, 0⟩))]) := by
+  have hany : v3Any a = true := v3Any_of_ne a (by rw [ha]; norm_num)
+  have hanye : v3Any e = true := v3Any_of_ne e he
+  obtain ⟨hb, hab, hc⟩ := orthogonals_spec a ha
+  have hth := hinge_theta a (orthogonals a).1 p q ha hb hab hq
+  simp only [xDof, linkToJointFrame, hany, hanye, v3Any_zero, hc, Bool.or_false, Bool.false_or,
+    Bool.and_self, Bool.true_or, Bool.or_true, if_true, Bool.false_eq_true, if_false,
+    cross_cross_a a _ ha hab]
+  simp only [List.zip_cons_cons, List.zip_nil_right, List.zipWith_cons_cons, List.zipWith_nil_right,
+    List.map_cons, List.map_nil, hany, v3Any_zero, if_true, Bool.false_eq_true, if_false, hth.1, hth.2]
+
+/-- `x_dof` on a (slide `e0`, slide `e1`, hinge about unit `a`) stack turned by `q` about `a` -/
+theorem xDof_slide_slide_hinge (a e0 e1 p : V3 ℝ) (q : ℝ) (jd : Motion ℝ) (pidx : Int)
+    (ha : V3.dot a a = 1) (he0 : V3.dot e0 e0 ≠ 0) (h1 : -Real.pi < q) (h2 : q ≤ Real.pi) :
+    xDof ⟨p, quatRotAxis a q⟩ jd pidx [⟨⟨0, 0, 0⟩, e0⟩, ⟨⟨0, 0, 0⟩, e1⟩, ⟨a, ⟨0, 0, 0⟩⟩]
+      = some ([V3.dot e0 p, V3.dot e1 p, q],
+              [V3.dot e0 jd.vel, V3.dot e1 jd.vel, V3.dot a (invRotate jd.ang
+                (if pidx == -1 then quatRotAxis a q else ⟨1, 0, 0, 0⟩))]) := by
+  have hany : v3Any a = true := v3Any_of_ne a (by rw [ha]; norm_num)
+  have hanye : v3Any e0 = true := v3Any_of_ne e0 he0
+  obtain ⟨hb, hab, hc⟩ := orthogonals_spec a ha
+  have hph := hinge_phi a (orthogonals a).1 p q ha hb hab h1 h2
+  simp only [xDof, linkToJointFrame, hany, hanye, v3Any_zero, hc, Bool.or_false, Bool.false_or,
+    Bool.and_self, Bool.true_or, Bool.or_true, if_true, Bool.false_eq_true, if_false,
+    cross_b_cross a _ hb hab]
+  simp only [List.zip_cons_cons, List.zip_nil_right, List.zipWith_cons_cons, List.zipWith_nil_right,
+    List.map_cons, List.map_nil, hany, v3Any_zero, if_true, Bool.false_eq_true, if_false, hph.1, hph.2]
+
+theorem quatMul_one_left (r : Q4 ℝ) : quatMul ⟨1, 0, 0, 0⟩ r = r := by
+  obtain ⟨_, _, _, _⟩ := r; simp only [quatMul]; congr 1 <;> ring
+
+theorem rotate_zero_vec (r : Q4 ℝ) (s t : ℝ) (a : V3 ℝ) :
+    rotate (⟨0 * s, 0 * s, 0 * s⟩ + V3.cross ⟨0 * t, 0 * t, 0 * t⟩ a) r = ⟨0, 0, 0⟩ := by
+  simp only [rotate, V3.dot, V3.cross, Q4.vec, V3.add_def]; congr 1 <;> ring
+
+theorem jcalc_slide_hinge (ds dh : DofP ℝ) (a e : V3 ℝ) (q0 q1 qd0 qd1 : ℝ)
+    (hs : ds.motion = ⟨⟨0, 0, 0⟩, e⟩) (hh : dh.motion = ⟨a, ⟨0, 0, 0⟩⟩)
+    (ha : V3.dot a a = 1) (hq0 : |q0| ≤ 2) :
+    Kin.jcalc ⟨.two, [q0, q1], [qd0, qd1], [ds, dh]⟩
+      = (⟨⟨e.x * q0, e.y * q0, e.z * q0⟩, quatRotAxis a q1⟩,
+         ⟨⟨a.x * qd1, a.y * qd1, a.z * qd1⟩, ⟨e.x * qd0, e.y * qd0, e.z * qd0⟩⟩) := by
+  simp only [Kin.jcalc, List.zip_cons_cons, List.zip_nil_right, List.map_cons, List.map_nil,
+    List.foldl_cons, List.foldl_nil, Kin.jcalcDof, Kin.jcalcAcc, hh, hs, slide_rot _ hq0,
+    normalize4_unit _ (quatRotAxis_normSq a q1 ha)]
+  rw [rotate_zero_vec, rotate_scale, rotate_axis a q1 ha]
+  simp only [Tf.doTf, quatMul_one_left, Motion.add_def, V3.add_def]
+  rw [rotate_one]
+  simp only [zero_mul, zero_add, add_zero]
+
+theorem jcalc_slide_slide_hinge (d0 d1 dh : DofP ℝ) (a e0 e1 : V3 ℝ) (q0 q1 q2 qd0 qd1 qd2 : ℝ)
+    (h0 : d0.motion = ⟨⟨0, 0, 0⟩, e0⟩) (h1 : d1.motion = ⟨⟨0, 0, 0⟩, e1⟩)
+    (hh : dh.motion = ⟨a, ⟨0, 0, 0⟩⟩) (ha : V3.dot a a = 1) (hq0 : |q0| ≤ 2) (hq1 : |q1| ≤ 2) :
+    Kin.jcalc ⟨.three, [q0, q1, q2], [qd0, qd1, qd2], [d0, d1, dh]⟩
+      = (⟨⟨e0.x * q0 + e1.x * q1, e0.y * q0 + e1.y * q1, e0.z * q0 + e1.z * q1⟩, quatRotAxis a q2⟩,
+         ⟨⟨a.x * qd2, a.y * qd2, a.z * qd2⟩,
+          ⟨e0.x * qd0 + e1.x * qd1, e0.y * qd0 + e1.y * qd1, e0.z * qd0 + e1.z * qd1⟩⟩) := by
+  simp only [Kin.jcalc, List.zip_cons_cons, List.zip_nil_right, List.map_cons, List.map_nil,
+    List.foldl_cons, List.foldl_nil, Kin.jcalcDof, Kin.jcalcAcc, hh, h0, h1, slide_rot _ hq0,
+    slide_rot _ hq1, normalize4_unit _ (quatRotAxis_normSq a q2 ha)]
+  rw [rotate_zero_vec, rotate_scale, rotate_axis a q2 ha]
+  simp only [Tf.doTf, quatMul_one_left, Motion.add_def, V3.add_def]
+  simp only [rotate_one]
+  simp only [zero_mul, zero_add, add_zero, V3.cross, mul_zero, sub_self]
+
+theorem hinge_vel_aux (a : V3 ℝ) (qd : ℝ) (ha : V3.dot a a = 1) (r : Q4 ℝ)
+    (hr : invRotate a r = a) :
+    V3.dot a (invRotate ⟨a.x * qd, a.y * qd, a.z * qd⟩ r) = qd := by
+  rw [invRotate_scale, hr]
+  simp only [V3.dot] at ha ⊢
+  linear_combination qd * ha
+
+
 /-! ## concrete data for the non-vacuity examples -/
 
 /-- a link with an offset, a rotated frame (unit quaternion `(3/5, 0, 4/5, 0)`) and an anchor away
